@@ -158,7 +158,7 @@ func (index *indexText) InsertUpdateDelete(ctx context.Context, in <-chan Docume
 	 * before we consider parallelising it. */
 	writeErrC := make(chan error, 1)
 	// This is the aforementioned single thread
-	go func() {
+	utils.Go(ctx, func() {
 		defer close(writeErrC)
 		index.mu.Lock()
 		defer index.mu.Unlock()
@@ -168,7 +168,7 @@ func (index *indexText) InsertUpdateDelete(ctx context.Context, in <-chan Docume
 			return
 		}
 		writeErrC <- index.flush()
-	}()
+	})
 	return utils.MergeErrorsWithContext(ctx, errC, writeErrC)
 }
 
